@@ -1315,6 +1315,28 @@ namespace bloch::runtime {
             for (const auto& v : cls->staticStorage) markValue(v);
         }
         markValue(m_returnValue);
+        // An object is also live when something the collector cannot see still holds it: an
+        // argument already evaluated for a pending call, a receiver, a value being returned.
+        // Such holders show up as owners beyond those found inside other heap objects (and
+        // beyond the one reference held by `objects`), so treat those objects as roots.
+        {
+            std::unordered_map<const Object*, long> heldByHeap;
+            auto countValue = [&](const Value& v) {
+                if (v.type == Value::Type::Object && v.objectValue)
+                    heldByHeap[v.objectValue.get()]++;
+                else if (v.type == Value::Type::ObjectArray)
+                    for (const auto& o : v.objectArray)
+                        if (o)
+                            heldByHeap[o.get()]++;
+            };
+            for (const auto& obj : objects)
+                for (const auto& f : obj->fields) countValue(f);
+            for (const auto& obj : objects) {
+                long outside = obj.use_count() - 1 - heldByHeap[obj.get()];
+                if (outside > 0)
+                    markObject(obj);
+            }
+        }
         // Sweep unmarked non-tracked objects
         std::vector<std::shared_ptr<Object>> unreachable;
         for (auto& obj : objects) {
